@@ -729,7 +729,13 @@ impl Indexable for ast::FieldLet {
             .expect("field let outside of record");
         let record = ctx.symbol_map.record(record_id);
 
-        let field_id = record.find_field(&ctx.symbol_map, &name)?;
+        let Some(field_id) = record.find_field(&ctx.symbol_map, &name) else {
+            ctx.error(reference_loc.range, format!("field not found: {name}"));
+            if let Some(value) = self.value() {
+                value.index(ctx);
+            }
+            return None;
+        };
         let field = ctx.symbol_map.record_field(field_id);
         let field_typ = field.typ.clone();
 
